@@ -210,7 +210,7 @@ func main() {
 	sUsers := []string{"", "a", "-a"}
 	sHosts := []string{"a", "-a", "docker", "tcp"}
 	sPorts := []string{"-", "", "0", "00", "1", "65535", "65536"} // "-" = no port segment
-	sPaths := [][2]string{{"a", "tcp:h:1"}, {"0:a", "tcp:0:1"}, {"1:a", "unix:/s"}, {"/a", "unix:s"}, {"//a/b", "npipe:p"}, {"~", "tcp:"}, {"C:\\a", "x:y"}, {"", ""}}
+	sPaths := [][2]string{{"a", "tcp:h:1"}, {"0:a", "tcp:0:1"}, {"1:a", "unix:/s"}, {"/a", "unix:s"}, {"//a/b", "npipe:p"}, {"~", "tcp:"}, {"C:\\a", "x:y"}, {"", ""}, {":a", "tcp:h:1"}, {"00:", "unix:/0:1"}}
 	for _, us := range sUsers {
 		for _, h := range sHosts {
 			for _, po := range sPorts {
@@ -231,7 +231,7 @@ func main() {
 			}
 		}
 	}
-	w.Extra["exhaustive_scope"] = fmt.Sprintf("[user@]host:[port:]path over users {none,a,-a} x hosts {a,-a,docker,tcp} x ports {none,empty,0,00,1,65535,65536} x 8 paths per kind; "+"synchronization: every non-empty string of length <= %d over {a @ : / 0 -}; forwarding: every string of length <= %d over {a @ : 0 -} followed by ':tcp:h:1'; Docker: 'docker://' + every string of length <= %d over {a @ / : ~ -} (both kinds) (%d cases)", maxLen, maxLen-1, maxLen, n)
+	w.Extra["exhaustive_scope"] = fmt.Sprintf("[user@]host:[port:]path over users {none,a,-a} x hosts {a,-a,docker,tcp} x ports {none,empty,0,00,1,65535,65536} x 10 paths per kind; "+"synchronization: every non-empty string of length <= %d over {a @ : / 0 -}; forwarding: every string of length <= %d over {a @ : 0 -} followed by ':tcp:h:1'; Docker: 'docker://' + every string of length <= %d over {a @ / : ~ -} (both kinds) (%d cases)", maxLen, maxLen-1, maxLen, n)
 
 	// Grammar-driven random strings and URL values.
 	g := urlcoq.NewGen(cfg.Rand)
